@@ -83,6 +83,10 @@ def replay_special(rc: dict, prefix: str, judge: Optional[Callable[[dict], bool]
         v, n = scribble_violation(prefix)
         print("property violated: " + v["what"] if v else f"property holds on {n} histories in which the caller edits its results")
         return 1 if v else 0
+    if rc.get("other_uses"):
+        v, n = other_uses_violation(prefix)
+        print("property violated: " + v["what"] if v else f"property holds on {n} histories in which the validator is also described, printed, compared and its errors rendered")
+        return 1 if v else 0
     if rc.get("odd_equality"):
         v = odd_equality_violation(prefix)
         print("property violated: " + v["what"] if v else "property holds for values with unusual equality")
@@ -302,4 +306,76 @@ def scribble_violation(prefix: str, limit: int = 400) -> Tuple[Optional[dict], i
                                  "replay_case": {"scribble": True}}, n)
                     edited_extra = edited_extra or _has_extra_keys_err(r)
                     scribble(r)
+    return None, n
+
+
+
+# ------------------------------------------------------------------ histories in which the validator is put to its other uses
+def other_uses_trees():
+    from ..lang import N, P, Some
+    S_, I_ = G.S, G.I
+    INT = ("Scalar", ("KInt",), None, [], [], [])
+    BOTH = ("Scalar", ("KInt",), None, [], [("PMin", I_(0), False)], [("APred", N(1))])
+    STR_BOTH = ("Scalar", ("KStr",), None, [("Strip",)], [("PMaxLength", 3)], [("APred", N(0))])
+    lists = [("VList", [I_(1)]), ("VList", [I_(1), I_(2), I_(3)]), ("VList", []), ("VList", [S_("x")]), I_(1)]
+    tups = [("VTuple", [I_(1)]), ("VTuple", [I_(1), I_(2), I_(3)]), ("VList", [I_(1), I_(2)]), ("VTuple", [])]
+    maps = [("VDict", [P(S_("k"), I_(1))]), ("VDict", [P(S_("k"), I_(1)), P(S_("l"), I_(2)), P(S_("m"), I_(3))]), ("VDict", [])]
+    extra = [
+        (BOTH, [I_(1), I_(-1), S_("x")]), (STR_BOTH, [S_(" a "), S_("abcd"), I_(1)]),
+        (("ListV", INT, [("PMinItems", 1)], [("APred", N(1))], None), lists),
+        (("ListV", BOTH, [("PMinItems", 1), ("PMaxItems", 2)], [("APred", N(0)), ("APred", N(1))], None), lists),
+        (("UTupleV", INT, [("PMinItems", 1)], [("APred", N(1))], Some(("CoTupleOrList",))), tups),
+        (("MapV", ("Scalar", ("KStr",), None, [], [], []), INT, [("PMinKeys", 1)], [("APred", N(1))], None), maps),
+        (("ListV", ("ListV", INT, [("PMaxItems", 2)], [("APred", N(1))], None), [("PMinItems", 1)], [], None),
+         [("VList", [("VList", [I_(1)])]), ("VList", [("VList", [I_(1), I_(2), I_(3)])]), ("VList", [])]),
+        (("OptionalV", ("NoneV", None), ("ListV", INT, [("PMinItems", 1)], [("APred", N(1))], None)), lists + [G.NONE]),
+    ]
+    return list(scribble_trees()) + extra
+
+
+def _other_uses(v, v2, r) -> None:
+    """What a program does with a validator besides calling it. Nothing here may change what the next call returns;
+    whether each of these is itself right is the business of C10 / C12 / C19."""
+    from koda_validate.serialization import to_json_schema, to_named_json_schema, to_serializable_errs
+    from koda_validate import Invalid
+    for f in (lambda: to_json_schema(v), lambda: to_named_json_schema("T", v), lambda: repr(v), lambda: v == v2, lambda: v2 == v,
+              lambda: to_serializable_errs(r) if isinstance(r, Invalid) else None, lambda: repr(r)):
+        try:
+            f()
+        except Exception:  # noqa
+            pass
+
+
+def other_uses_violation(prefix: str) -> Tuple[Optional[dict], int]:
+    """Histories on one instance in which, between two validations, the validator is described as a JSON Schema,
+    printed, compared with an equal validator, and the result of the first call is rendered: the second call still
+    returns what a fresh instance returns (also when the description ended in its documented TypeError)."""
+    import itertools
+    n = 0
+    for vt, alpha in other_uses_trees():
+        for x1, x2 in itertools.product(alpha, repeat=2):
+            for modes in (("sync", "sync"), ("async", "async"), ("sync", "async"), ("async", "sync")):
+                n += 1
+                try:
+                    ctx = Ctx(G.STD_CLASSES, [])
+                    v = ctx.validator(vt)
+                    v2 = Ctx(G.STD_CLASSES, []).validator(vt)
+                except HarnessError:
+                    continue
+                r = None
+                for i, (mode, xt) in enumerate(zip(modes, (x1, x2))):
+                    x = to_py(xt, ctx.ct)
+                    try:
+                        r = v(x) if mode == "sync" else drive(v.validate_async(x))
+                    except Exception as e:  # noqa
+                        r = e
+                    actx, alone = _alone(vt, [], xt, mode)
+                    if not _same(ctx, r, actx, alone):
+                        kind = "raised" if isinstance(r, Exception) else "returned"
+                        return ({"kind": "oracle", "signature": f"{prefix}:other-uses",
+                                 "what": f"call {i} ({mode}, {x!r}) {kind} {r!r} on an instance that, after its first call, had been described "
+                                         f"(to_json_schema / to_named_json_schema), printed, compared with an equal validator and had its result rendered; "
+                                         f"a fresh instance gives {alone!r}; validator {v2!r}",
+                                 "replay_case": {"other_uses": True}}, n)
+                    _other_uses(v, v2, r)
     return None, n
